@@ -1,6 +1,7 @@
 package rules
 
 import (
+	"regexp"
 	"fmt"
 	"go/token"
 	"go/types"
@@ -479,9 +480,7 @@ func r14cursor(c *core.Ctx) {
 		}
 		c.Check(ok, R, "aper.GetBitsValue:checked-read", badPos, "every return is preceded by GetBitString's remaining-bits check", "GetBitsValue has a path that returns without going through GetBitString's `numBits > bitsLeft` check: a read that straddles the end of the input succeeds and leaves the cursor past the data")
 	}
-	if n < 8 {
-		c.Undecided("R14.cursor found only %d cursor updates (expected about 12)", n)
-	}
+	c.Floor(R, n, 12)
 }
 
 func r14loop(c *core.Ctx) {
@@ -504,18 +503,39 @@ func r14loop(c *core.Ctx) {
 			}
 			found++
 			key := "aper." + name + ":fragment-loop"
-			// (1) every back edge is taken only when `repeat` is set
+			// (1) every back edge is taken only when `repeat` is set: the flag parseLength reports,
+			// through its *bool argument or as a boolean result
+			repeatNames := []string{"local:*bool#0"}
+			for _, ci := range core.CallsTo(f, pAper+".perBitData.parseLength") {
+				if call, isCall := ci.(*ssa.Call); isCall {
+					if tup, isTup := call.Type().(*types.Tuple); isTup {
+						for i := 0; i < tup.Len(); i++ {
+							if b, isB := tup.At(i).Type().Underlying().(*types.Basic); isB && b.Kind() == types.Bool {
+								repeatNames = append(repeatNames, fmt.Sprintf("%s#%d", p.Path(call), i))
+							}
+						}
+					}
+				}
+			}
+			isRepeat := func(cnd string) bool {
+				for _, n := range repeatNames {
+					if strings.Contains(cnd, n) {
+						return true
+					}
+				}
+				return false
+			}
 			okRepeat := true
 			for _, bk := range backs {
 				conds := dominatingConds(p, bk)
 				hasRepeat := false
 				for _, cnd := range conds {
-					if strings.HasPrefix(cnd, "local:*bool#0=") || strings.HasPrefix(cnd, "(local:*bool#0") {
+					if isRepeat(cnd) {
 						hasRepeat = true
 					}
 				}
 				// the back edge block itself may be the block ending in `if repeat`
-				if iff, ok := bk.Instrs[len(bk.Instrs)-1].(*ssa.If); ok && strings.Contains(p.Path(iff.Cond), "local:*bool#0") {
+				if iff, ok := bk.Instrs[len(bk.Instrs)-1].(*ssa.If); ok && isRepeat(p.Path(iff.Cond)) {
 					hasRepeat = true
 				}
 				if !hasRepeat {
@@ -537,6 +557,12 @@ func r14loop(c *core.Ctx) {
 								adv = true
 							}
 						}
+						// the same advance made by a cursor helper of the decoder (readBytes(n), skip(n)) called on pd
+						if call, ok := in.(*ssa.Call); ok && len(call.Call.Args) >= 2 && p.Path(call.Call.Args[0]) == "p0" {
+							if g := call.Call.StaticCallee(); g != nil && fnPkgPath(g) == pAper && advancesCursorByParam(g) {
+								adv = true
+							}
+						}
 					}
 				}
 				if !adv {
@@ -552,11 +578,42 @@ func r14loop(c *core.Ctx) {
 	r14repeatX(c, R)
 }
 
+// advancesCursorByParam: g (a method of perBitData) stores byteOffset + <something derived from a
+// parameter> into its receiver's byteOffset.
+var reOtherParam = regexp.MustCompile(`(^|[^A-Za-z0-9_.])p[1-9]([^0-9A-Za-z_]|$)`)
+
+func advancesCursorByParam(g *ssa.Function) bool {
+	if len(g.Blocks) == 0 || len(g.Params) < 2 || derefNamed(g.Params[0].Type()) != pAper+".perBitData" {
+		return false
+	}
+	gp := core.NewPather(g)
+	for _, b := range g.Blocks {
+		for _, in := range b.Instrs {
+			if st, ok := in.(*ssa.Store); ok && gp.Path(st.Addr) == "p0.byteOffset" {
+				lf := core.Linearize(gp, st.Val)
+				if lf.T["p0.byteOffset"] != 1 || lf.C < 0 {
+					continue
+				}
+				for term := range lf.T {
+					if term != "p0.byteOffset" && reOtherParam.MatchString(term) {
+						return true
+					}
+				}
+			}
+		}
+	}
+	return false
+}
+
 func r14alloc(c *core.Ctx) {
 	const R = "R14.alloc"
 	c.Rule(R, "allocations are bounded: reflect.MakeSlice by a constrained count or one octet; make() by the guarded bit count; appends copy input sub-slices")
 	f := mustFunc(c, pAper, "perBitData.parseSequenceOf")
 	p := core.NewPather(f)
+	if r14allocSeqX(c, R) {
+		r14allocBitString(c, R)
+		return
+	}
 	for _, ci := range core.CallsTo(f, "reflect.MakeSlice") {
 		n := p.Path(ci.Common().Args[1])
 		ok := true
@@ -579,6 +636,10 @@ func r14alloc(c *core.Ctx) {
 		}
 	}
 	c.Check(okCap, R, "aper.parseSequenceOf:size-cap", f.Pos(), "size bounds above 65535 are treated as unconstrained (one count octet)", "SEQUENCE OF size bounds must be capped at 65535 before they size an allocation")
+	r14allocBitString(c, R)
+}
+
+func r14allocBitString(c *core.Ctx, R string) {
 	g := mustFunc(c, pAper, "GetBitString")
 	gp := core.NewPather(g)
 	for _, b := range g.Blocks {
@@ -656,9 +717,7 @@ func r14shift(c *core.Ctx) {
 		}
 	}
 	c.Sites(n)
-	if n < 10 {
-		c.Undecided("R14.shift found only %d shifts in the decoder (expected about 30)", n)
-	}
+	c.Floor(R, n, 30)
 }
 
 // guardFresh: a bounds guard that reads the cursor (lo = p0.byteOffset) is only worth
